@@ -24,6 +24,8 @@ Template directives (line based, inside an otherwise ordinary Verus file):
     //@ replace <from> => <to>   literal replacement inside the copied text (logged as manual rewrite; must match once);
     //                           `ws:<from>` matches with any white space between the blank-separated tokens of <from>
     //@ rename-generic <A> <B>   R11
+    //@ retain-loop <k> : <T>    R18: the statement `recv.retain(|x| { BODY });` whose closure is the k-th of the function becomes an explicit
+    //                           loop (pop from the front, run BODY, keep in a new queue); following lines: the loop's invariant / ensures / decreases
     //@ tail-after <anchor> [#n] R17: following lines are a function header; the item's attributes, signature and every statement up
     //                           to and including the n-th direct body statement starting with anchor are dropped, the rest of the body
     //                           is checked as the body of that header (the dropped statements are counted in the report)
@@ -164,6 +166,7 @@ class Directive:
         self.drop_body = False
         self.exec_const = None
         self.tail_after = None  # (anchor, nth, header text)
+        self.retain_loops = {}  # closure index -> (element type, loop clauses)
 
 
 def select_variant(text, variant):
@@ -229,6 +232,8 @@ def parse_template(text, unit_path):
                     d.splices.append((k, cur[1], cur[2], t, cur[3]))
                 elif k == "tail-after":
                     d.tail_after = (cur[1], cur[2], t)
+                elif k == "retain-loop":
+                    d.retain_loops[cur[1]] = (cur[2], t)
                 cur, payload = None, []
 
             while i < len(lines):
@@ -260,6 +265,11 @@ def parse_template(text, unit_path):
                             raise SpliceError("%s:%d: bad closure directive" % (unit_path, i + 1))
                         tys = [x.strip() for x in split_top_commas(m2.group(2))] if m2.group(2).strip() else []
                         cur = ("closure", int(m2.group(1)), tys, m2.group(3))
+                    elif key == "retain-loop":
+                        m2 = re.match(r"(\d+)\s*:\s*(.+)$", rest)
+                        if not m2:
+                            raise SpliceError("%s:%d: bad retain-loop directive" % (unit_path, i + 1))
+                        cur = ("retain-loop", int(m2.group(1)), m2.group(2).strip())
                     elif key == "tail-after":
                         m2 = re.match(r"(.*?)(?:\s+#(\d+))?$", rest)
                         cur = ("tail-after", norm(m2.group(1)), int(m2.group(2) or 0))
@@ -430,6 +440,33 @@ def render_fn(doc, it, parent, d, relfile, report, twin=False):
             continue
         ed.insert(body["loops"][k]["iter"][0], nm + ": ")
         rw["R1"] = rw.get("R1", 0) + 1
+    # R18: `<recv>.retain(|x| { BODY });`  ==>  an explicit loop that pops every element from the front, runs BODY (the repository text)
+    # on it and keeps it in a new queue when BODY says so.  Verus has no specification for a `retain` whose closure mutates captured state.
+    for k, (elem_ty, clauses) in d.retain_loops.items():
+        if k >= len(body["closures"]):
+            report["lost_anchors"].append("%s: retain-loop %d" % (it["path"], k))
+            continue
+        c = body["closures"][k]
+        holder = [st for st in body["stmts"] if st["span"][0] <= c["span"][0] and c["span"][1] <= st["span"][1]]
+        holder = sorted(holder, key=lambda st: st["span"][1] - st["span"][0])
+        ok = False
+        if holder and c["body_is_block"] and len(c["inputs"]) == 1 and not c["inputs"][0]["wild"]:
+            st = holder[0]
+            pre = src[st["span"][0]:c["span"][0]].decode()
+            post = src[c["span"][1]:st["span"][1]].decode()
+            m = re.match(r"^(.*)\.retain\(\s*$", pre, re.S)
+            if m and post.strip() == ");":
+                recv, x = m.group(1).strip(), c["inputs"][0]["text"]
+                ba, bb = c["body"]
+                ed.replace(st["span"][0], ba,
+                           "let mut vkept: VecDeque<%s> = VecDeque::new();\n        loop\n%s\n        {\n            let vo = %s.pop_front();\n"
+                           "            if vo.is_none() { break; }\n            let vitem = vo.unwrap();\n            let %s = &vitem;\n            let vkeep = "
+                           % (elem_ty, clauses, recv, x))
+                ed.replace(bb, st["span"][1], ";\n            if vkeep { vkept.push_back(vitem); }\n        }\n        %s = vkept;" % recv)
+                rw["R18"] = rw.get("R18", 0) + 1
+                ok = True
+        if not ok:
+            report["lost_anchors"].append("%s: retain-loop %d (not of the form `recv.retain(|x| { .. });`)" % (it["path"], k))
     # closures R4
     for k, (tys, retdecl, ens) in d.closures.items():
         if k >= len(body["closures"]):
